@@ -270,6 +270,10 @@ def get_Eewald(atoms, gcut=2, gamma=1e-8):
     for ia in range(atoms.Natoms):
         for ja in range(atoms.Natoms):
             dpos = atoms.pos[ia] - atoms.pos[ja]
+            # The lattice sums are periodic in dpos, but the image boxes are centered around the origin
+            # Map the distance vector into the cell around the origin, so the boxes contain all images
+            dfrac = dpos @ xp.linalg.inv(atoms.a)
+            dpos = (dfrac - xp.round(dfrac)) @ atoms.a
             ZiZj = atoms.Z[ia] * atoms.Z[ja]
 
             # Add the real-space contribution
